@@ -2,7 +2,7 @@
 use crate::rt::{run_shards, Acc, CheckMeta, Ctx};
 
 pub fn run(ctx: &Ctx) -> (CheckMeta, Acc) {
-    let n = ctx.tier.pick(8, 190);
+    let n = ctx.tier.pick(160, 6000);
     let steps = ctx.tier.pick(100, 250);
     let total = run_shards(ctx, 16, |sh, acc| crate::mon::inc::run_inc_histories(ctx, sh, acc, n, steps, "C12"));
     let meta = CheckMeta {
